@@ -415,3 +415,78 @@ def run(ctx):
 
     rule_chunk_state(ctx)
     ctx.rules["C13-R9"]["decides"] = "(shared with C13, here C12-R8) " + ctx.rules["C13-R9"]["decides"]
+
+
+# ---------------------------------------------------------------------------- R9 (added after seeded change C12/deflate-fallback-only-on-first-call)
+def _run_r9(ctx):
+    from ..rows import GenRule, effect_rows
+    from ..terms import K, T, destruct, norm, subterms
+
+    m = ctx.model
+    R9 = ctx.rule("C12-R9", "deflate with or without the zlib wrapper decodes the same however the body is segmented: while no output has been produced the decoder stays in its trial phase and keeps every byte it was fed; on a zlib header error it switches to raw deflate and replays ALL of those bytes (zlib cannot reject a stream before it has seen both header bytes, so a 1-byte first piece must not end the trial)", "E10 effect rows of DeflateDecoder.decompress")
+    dd = f"{RS}.DeflateDecoder"
+    dec = m.method(dd, "decompress")
+    pd = "p:" + dec.params()[0]
+    rows = effect_rows(ctx, dec, GenRule(ctx, RS, raising={"decompress": "zlib.error"}, field_consts={}), dd)
+    trial_flag = None
+    # the trial flag: the boolean field tested first thing and set False when the trial ends
+    for r in rows:
+        for e in r.events("store"):
+            if e[1] == "self" and e[3] == "False" and r.truth(f"self.{e[2]}") is True:
+                trial_flag = e[2]
+    if trial_flag is None:
+        raise AnalysisError("DeflateDecoder.decompress: no trial-phase flag found (a boolean field set False once the stream kind is known)")
+    F = f"self.{trial_flag}"
+    bufs = set()
+    for r in rows:
+        for e in r.events("store"):
+            if e[1] == "self" and pd in e[3] and e[2] != trial_flag and destruct(e[3])[0] in ("add", "cat"):
+                bufs.add(e[2])
+    n_trial = 0
+    seen = set()
+    for r in rows:
+        if r.truth(F) is not True:
+            continue
+        stores = {}
+        for e in r.events("store"):
+            if e[1] == "self":
+                stores.setdefault(e[2], e[3])  # the first value stored on the path (a later reset to None is bookkeeping)
+        last_flag = [e[3] for e in r.events("store") if e[1] == "self" and e[2] == trial_flag]
+        calls = r.events("call")
+        fault = r.st.ts.get("fault")
+        if fault is not None and fault[0] == "self.decompress":
+            continue  # the replay itself failing: the stream is corrupt either way
+        out_truth = None
+        for k, v in r.st.facts.items():
+            if k.startswith("self._obj.decompress(") and v[0] is not None:
+                out_truth = v[0]
+        key = (bool(fault), out_truth, tuple(sorted(stores.items())), tuple(c[1:3] for c in calls), r.out.split(":")[0])
+        if key in seen:
+            continue
+        seen.add(key)
+        n_trial += 1
+        acc_terms = {norm(T("add", f"self.{b}", pd)) for b in bufs} | {T("add", f"self.{b}", pd) for b in bufs}
+        if fault is None and out_truth is False:
+            # nothing decoded yet: still in the trial, input kept
+            ok = (not last_flag or last_flag[-1] != "False") and any(b in stores and (stores[b] in acc_terms or norm(stores[b]) in acc_terms) for b in bufs)
+            ctx.ob(R9, dec.qual, "no output yet: the trial phase continues and the input is kept", ok,
+                   "" if ok else f"stores {stores}: the trial ends (or the bytes are dropped) before zlib could judge the header - a raw-deflate body whose first piece is one byte then fails with a header error", witness=r.witness(), node=dec.node)
+        elif fault is not None and fault[1] == "zlib.error" and not any(c[1] == "self._obj.decompress" for c in calls[1:]) and not any(c[1] == "self.decompress" for c in calls):
+            ctx.ob(R9, dec.qual, "a header error in the trial phase falls back to raw deflate", r.returns and False, f"outcome {r.out}, calls {calls}: the zlib error escapes (or nothing is re-decoded)", witness=r.witness(), node=dec.node)
+        elif fault is not None or any(c[1] == "self.decompress" for c in calls):
+            replay = [c for c in calls if c[1] in ("self.decompress",)] + [c for c in calls[1:] if c[1] == "self._obj.decompress"]
+            if not replay:
+                continue
+            arg = replay[-1][2] if len(replay[-1]) > 2 else "?"
+            ok = arg in acc_terms or norm(arg) in acc_terms or any(arg == f"self.{b}" and b in stores and (stores[b] in acc_terms or norm(stores[b]) in acc_terms) for b in bufs)
+            ctx.ob(R9, dec.qual, f"the raw-deflate fallback replays everything fed so far ({arg[:60]})", ok,
+                   "" if ok else "only the current piece is re-decoded: the bytes of earlier pieces are lost and the body is corrupt", witness=r.witness(), node=dec.node)
+    ctx.sites(R9, n_trial, 3, "trial-phase rows of DeflateDecoder.decompress")
+
+
+_run_base12 = run
+
+
+def run(ctx):  # noqa: F811
+    _run_base12(ctx)
+    _run_r9(ctx)
